@@ -106,6 +106,8 @@ class SimTransport(object):
             self.tty.baudrate = baudrate
 
     # -- fault control ---------------------------------------------------------------------
+    thread_hook = None
+
     def arm(self, fault=None):
         self.armed = True
         self.ncmd = 0
@@ -138,6 +140,12 @@ class SimTransport(object):
             self.cmds.append(info)
             if self.fault is not None and self.fault["at"] == idx:
                 f = self.fault
+        if f is not None and f["stage"] == "thread" and self.thread_hook is not None and self.fired is None:
+            # another application thread acts on the frontend while this host command is under way
+            self.fired = f
+            self.thread_hook(f)
+            if self.closed:
+                return None
         if f is not None and f["stage"] == "write":
             self.fired = f
             if f["kind"] == "enodev":
